@@ -92,14 +92,14 @@ def endsNL (l : List Byte) : Bool := l.getLast? == some NL
 def pull (parse : Bool → List Byte → ParseRes) : Nat → List Byte → List Byte → Pulled
   | 0, buf, inp => { text := buf, rest := inp, res := .error, sawEof := true }
   | n + 1, buf, inp =>
-    match nextLine inp with
-    | ([], rest) => { text := buf, rest := rest, res := parse true buf, sawEof := true }
-    | (line, rest) =>
-      let buf' := buf ++ line
-      if (parse false buf').isIncomplete then
-        { pull parse n buf' rest with
-          sawEof := (pull parse n buf' rest).sawEof || !endsNL line }
-      else { text := buf', rest := rest, res := parse false buf', sawEof := !endsNL line }
+    if (nextLine inp).1 = [] then
+      { text := buf, rest := (nextLine inp).2, res := parse true buf, sawEof := true }
+    else if (parse false (buf ++ (nextLine inp).1)).isIncomplete then
+      { pull parse n (buf ++ (nextLine inp).1) (nextLine inp).2 with
+        sawEof := (pull parse n (buf ++ (nextLine inp).1) (nextLine inp).2).sawEof
+                  || !endsNL (nextLine inp).1 }
+    else { text := buf ++ (nextLine inp).1, rest := (nextLine inp).2,
+           res := parse false (buf ++ (nextLine inp).1), sawEof := !endsNL (nextLine inp).1 }
 
 /-! ### Shell state and built-ins -/
 
@@ -138,17 +138,18 @@ def setVar (vars : List (String × String)) (n v : String) : List (String × Str
 
 /-- `read` of `read/input.rs`: characters with their quoting, whether the delimiter was found, the
     rest of the stream.  A backslash-newline pair is a line continuation unless `raw`. -/
-def readLine (raw : Bool) : List Byte → List (Char × Bool) → (List (Char × Bool) × Bool × List Byte)
-  | [], acc => (acc, false, [])                                          -- `None => break false`
-  | b :: rest, acc =>
+def readLineGo (raw : Bool) : Bool → List Byte → List (Char × Bool) → (List (Char × Bool) × Bool × List Byte)
+  | _, [], acc => (acc, false, [])                                       -- `None => break false`
+  | true, c :: rest, acc =>                                              -- the character after `\`
+    if c = NL then readLineGo raw false rest acc                         -- line continuation
+    else readLineGo raw false rest (acc ++ [(Char.ofNat c.toNat, true)])
+  | false, b :: rest, acc =>
     if b = NL then (acc, true, rest)                                     -- delimiter
-    else if b = 92 ∧ !raw then
-      match rest with
-      | [] => (acc, false, [])                                           -- `\` then end of input
-      | c :: rest' =>
-        if c = NL then readLine raw rest' acc                            -- line continuation
-        else readLine raw rest' (acc ++ [(Char.ofNat c.toNat, true)])
-    else readLine raw rest (acc ++ [(Char.ofNat b.toNat, false)])
+    else if b = 92 ∧ !raw then readLineGo raw true rest acc              -- backslash escape
+    else readLineGo raw false rest (acc ++ [(Char.ofNat b.toNat, false)])
+
+def readLine (raw : Bool) (inp : List Byte) (acc : List (Char × Bool)) :
+    List (Char × Bool) × Bool × List Byte := readLineGo raw false inp acc
 
 def isIfsWs (p : Char × Bool) : Bool := !p.2 && (p.1 == ' ' || p.1 == '\t')
 
@@ -264,38 +265,60 @@ def execCat (s : State) (bodies : List (List Char)) (here : Option Nat) : State 
     { s' with out := (outLines (all.length + 1) all).reverse ++ s'.out, status := 0,
               hitEof := s'.hitEof || s'.shared }
 
+/-- the utilities the scripts use (`a1`…`a3` are harness built-ins named like the aliases) -/
+inductive Util where
+  | probe | aliasName | st | colon | read | alias | unalias | set | cat | unknown
+  deriving DecidableEq, Repr
+
+def classify (name : String) : Util :=
+  if name == "probe" then .probe
+  else if name == "a1" || name == "a2" || name == "a3" then .aliasName
+  else if name == "st" then .st
+  else if name == ":" then .colon
+  else if name == "read" then .read
+  else if name == "alias" then .alias
+  else if name == "unalias" then .unalias
+  else if name == "set" then .set
+  else if name == "cat" then .cat
+  else .unknown
+
+def execSet (s : State) (args : List String) : State :=
+  match args with
+  | ["-v"] => setOption s "verbose" true
+  | ["+v"] => setOption s "verbose" false
+  | ["-o", o] => setOption s o true
+  | ["+o", o] => setOption s o false
+  | _ => { s with status := 2 }
+
+def execAlias (s : State) (args : List String) : State :=
+  match args.head?.bind splitEq with
+  | some (n, v) => { s with aliases := (n, v) :: s.aliases.filter (·.1 != n), status := 0 }
+  | none => { s with status := 0 }
+
+def execUnalias (s : State) (args : List String) : State :=
+  match args.head? with
+  | some n => { s with aliases := s.aliases.filter (·.1 != n), status := 0 }
+  | none => { s with status := 2 }
+
+def execUtil (s : State) (bodies : List (List Char)) (u : Util) (name : String) (args : List String)
+    (here : Option Nat) : State :=
+  match u with
+  | .probe => { s with out := Out.probe s.status args s.pos :: s.out }
+  | .aliasName => { s with out := Out.probe s.status ["@" ++ name] s.pos :: s.out }
+  | .st => { s with status := (args.head?.bind String.toNat?).getD 0 }
+  | .colon => { s with status := 0 }
+  | .read => if args.head? == some "-r" then execRead s true (args.drop 1) else execRead s false args
+  | .alias => execAlias s args
+  | .unalias => execUnalias s args
+  | .set => execSet s args
+  | .cat => execCat s bodies here
+  | .unknown => { s with status := 127 }
+
 /-- a simple command after expansion: the built-ins -/
 def execSimple (s : State) (bodies : List (List Char)) (fields : List String) (here : Option Nat) : State :=
   match fields with
   | [] => { s with status := 0 }
-  | name :: args =>
-    if name == "probe" then
-      { s with out := Out.probe s.status args s.pos :: s.out }
-    else if name == "a1" || name == "a2" || name == "a3" then
-      -- harness built-ins of the alias names: behave as `probe @<name>`
-      { s with out := Out.probe s.status ["@" ++ name] s.pos :: s.out }
-    else if name == "st" then
-      { s with status := (args.head?.bind String.toNat?).getD 0 }
-    else if name == ":" then { s with status := 0 }
-    else if name == "read" then
-      if args.head? == some "-r" then execRead s true (args.drop 1) else execRead s false args
-    else if name == "alias" then
-      match args.head?.bind splitEq with
-      | some (n, v) => { s with aliases := (n, v) :: s.aliases.filter (·.1 != n), status := 0 }
-      | none => { s with status := 0 }
-    else if name == "unalias" then
-      match args.head? with
-      | some n => { s with aliases := s.aliases.filter (·.1 != n), status := 0 }
-      | none => { s with status := 2 }
-    else if name == "set" then
-      match args with
-      | ["-v"] => setOption s "verbose" true
-      | ["+v"] => setOption s "verbose" false
-      | ["-o", o] => setOption s o true
-      | ["+o", o] => setOption s o false
-      | _ => { s with status := 2 }
-    else if name == "cat" then execCat s bodies here
-    else { s with status := 127 }
+  | name :: args => execUtil s bodies (classify name) name args here
 
 /-- one step of command execution; `none` when the continuation is empty -/
 def step (bodies : List (List Char)) (k : List K) (s : State) : Option (List K × State) :=
@@ -369,17 +392,17 @@ def loop : Nat → State → List Iter → State × Outcome × List Iter
   | 0, s, log => (s, .outOfFuel, log)
   | n + 1, s, log =>
     let p := pull (parserOf s) (s.inp.length + 1) [] s.inp
-    let s1 := { s with inp := p.rest, echo := echoOf s p.text,
-                       pos := if s.shared then s.pos + p.text.length else s.pos }
+    let s1 : State := { s with inp := p.rest, echo := echoOf s p.text,
+                               pos := if s.shared then s.pos + p.text.length else s.pos }
     let log := log ++ [{ start := s.inp, text := p.text, atExec := p.rest, posStart := s.pos,
                          posAtExec := s1.pos }]
     match p.res with
     | .none => (s1, .eof, log)
-    | .error | .incomplete => ({ s1 with status := 2 }, .syntaxError, log)
+    | .error => ({ s1 with status := 2 }, .syntaxError, log)
+    | .incomplete => ({ s1 with status := 2 }, .syntaxError, log)
     | .ok cs bodies =>
-      let s1 := { s1 with hitEof := s1.hitEof || p.sawEof }
-      let (s2, fin) := runK bodies execFuel (cmds cs) s1
-      if fin then loop n s2 log else (s2, .outOfFuel, log)
+      let r := runK bodies execFuel (cmds cs) { s1 with hitEof := s1.hitEof || p.sawEof }
+      if r.2 then loop n r.1 log else (r.1, .outOfFuel, log)
 
 def initState (shared : Bool) (script data : List Byte) : State :=
   { inp := script, shared, data }
